@@ -11,7 +11,13 @@ Parameters, constrained by hypotheses only as far as each clause needs:
 * `LowerNoUpper lowerStr` — lower-casing never outputs an ASCII upper-case letter (needed only for
   "no upper-case letter" in `xn--` labels: punycode copies the ASCII characters of its input);
 * `LowerNoDot lowerStr`   — lower-casing never creates a '.' (needed only for the label count).
-`lowerAsciiOnly` (identity outside ASCII) satisfies all three, see the `example`s.
+* `LowerBounded lowerStr` — lower-casing a label of at most 63 characters gives at most 3855
+  characters (Unicode: at most 3 per character); needed only for `idna_total`.
+`lowerAsciiOnly` (identity outside ASCII) satisfies all four, see the `example`s.
+
+`chk : Bool` in the statements: `true` = the current tree, `toIdnaStr = toIdnaStrG true` (labels of
+more than 63 characters rejected, commit 300bbf4); `false` = the tree before that commit,
+`toIdnaStrOld = toIdnaStrG false`. Theorems stated for every `chk` hold of both.
 -/
 import AcmedVerif.Model.Idna
 import AcmedVerif.Model.Ident
@@ -66,6 +72,25 @@ theorem punycode_total_full_is_false :
     ¬ (∀ input, punycodeEncodeP .dev input ≠ .panic) ∧ overflowWitness.length = 4001 :=
   ⟨fun h => h overflowWitness overflowWitness_panics, overflowWitness_length⟩
 
+/-- **`idna_total`.** For every domain text and both arithmetic profiles the CURRENT `to_idna`
+returns `ok` or `err`, never a panic (nor the model's `fuel`): a label of more than 63 characters
+is rejected before lower-casing, and the lower-cased form of a shorter one stays inside
+`punycode_total_partial`'s class. -/
+theorem idna_total (lowerStr : List Char → List Char) (hB : LowerBounded lowerStr) (p : Profile)
+    (domain : List Char) :
+    (∃ out, toIdnaStr lowerStr p domain = .ok out) ∨ toIdnaStr lowerStr p domain = .err :=
+  toIdnaStrG_total hB p domain
+
+/-- **`idna_total_old_is_false`.** Before commit 300bbf4 the same statement was false: the one-label
+name of `punycode_total_full_is_false` (4000 × U+0080, U+1061C2; lower-casing leaves it unchanged)
+made `to_idna` panic in a dev build — at configuration load, for a `dns` identifier. The current
+`to_idna` answers `err` for it in both profiles. -/
+theorem idna_total_old_is_false :
+    ¬ (∀ domain, toIdnaStrOld (liftLower lowerAsciiOnly) .dev domain ≠ .panic) ∧
+    (∀ lowerStr p, toIdnaStr lowerStr p overflowWitness = .err) :=
+  ⟨fun h => h overflowWitness (overflowWitness_old_panics _ overflowWitness_lower_fix),
+   fun lowerStr p => overflowWitness_now_err lowerStr p⟩
+
 /-- **`idna_label_shape`.** For every domain text for which `to_idna` succeeds: the result is the
 '.'-join of one output label per input label (same positions), where each output label
 * is ASCII,
@@ -74,62 +99,76 @@ theorem punycode_total_full_is_false :
 * equals `xn--` followed by the punycode encoding of the lower-cased label otherwise;
 the whole result is ASCII, and contains no upper-case ASCII letter if lower-casing never produces
 one. -/
-theorem idna_label_shape (lowerStr : List Char → List Char) (hA : LowerAscii lowerStr)
-    (p : Profile) (domain out : List Char) (h : toIdnaStr lowerStr p domain = .ok out) :
+theorem idna_label_shape (chk : Bool) (lowerStr : List Char → List Char) (hA : LowerAscii lowerStr)
+    (p : Profile) (domain out : List Char) (h : toIdnaStrG chk lowerStr p domain = .ok out) :
     ∃ ls, out = joinWith '.' ls ∧ ls.length = (splitOn '.' domain).length ∧
       (∀ x ∈ (splitOn '.' domain).zip ls, LabelShape lowerStr p x.1 x.2) ∧
       (∀ c ∈ out, isAscii c = true) ∧
-      (LowerNoUpper lowerStr → ∀ c ∈ out, isAsciiUpper c = false) := by
-  obtain ⟨ls, hls, rfl⟩ := toIdnaStr_ok lowerStr p domain out h
-  obtain ⟨hlen, hz⟩ := idnaLabels_spec lowerStr p _ ls hls
-  refine ⟨ls, rfl, hlen, fun x hx => idnaLabel_shape hA p x.1 x.2 (hz x hx), ?_, ?_⟩
+      (LowerNoUpper lowerStr → ∀ c ∈ out, isAsciiUpper c = false) ∧
+      (chk = true → ∀ name ∈ splitOn '.' domain, name.length ≤ 63) := by
+  obtain ⟨ls, hls, rfl⟩ := toIdnaStr_ok chk lowerStr p domain out h
+  obtain ⟨hlen, hz⟩ := idnaLabels_spec chk lowerStr p _ ls hls
+  refine ⟨ls, rfl, hlen, fun x hx => idnaLabel_shape hA chk p x.1 x.2 (hz x hx), ?_, ?_, ?_⟩
+  rotate_left 2
+  · intro hc name hn
+    subst hc
+    obtain ⟨l, hl⟩ := exists_zip_of_mem_left (splitOn '.' domain) ls hlen name hn
+    exact idnaLabelG_len lowerStr p name l (hz _ hl)
   · intro c hc
     rcases mem_joinWith '.' ls c hc with rfl | ⟨l, hl, hcl⟩
     · decide
     · obtain ⟨name, hn⟩ := exists_zip_of_mem_right _ ls hlen l hl
-      have := (idnaLabel_shape hA p name l (hz _ hn)).ascii
+      have := (idnaLabel_shape hA chk p name l (hz _ hn)).ascii
       simp only [allAscii, List.all_eq_true] at this
       exact this c hcl
   · intro hU c hc
     rcases mem_joinWith '.' ls c hc with rfl | ⟨l, hl, hcl⟩
     · decide
     · obtain ⟨name, hn⟩ := exists_zip_of_mem_right _ ls hlen l hl
-      exact idnaLabel_noUpper hA hU p name l (hz _ hn) c hcl
+      exact idnaLabel_noUpper hA hU chk p name l (hz _ hn) c hcl
 
-/-- **`idna_ascii_idempotent`.** A name that is already ASCII without upper-case letters is
-returned unchanged (whatever its labels look like: empty labels, `*`, digits, …). -/
-theorem idna_ascii_idempotent (lowerStr : List Char → List Char) (hA : LowerAscii lowerStr)
-    (p : Profile) (domain : List Char) (h1 : allAscii domain = true)
-    (h2 : ∀ c ∈ domain, isAsciiUpper c = false) : toIdnaStr lowerStr p domain = .ok domain := by
-  unfold toIdnaStr
-  rw [idnaLabels_self hA p (splitOn '.' domain) ?_]
+/-- **`idna_ascii_idempotent`.** A name that is already ASCII without upper-case letters (and, on
+the current tree, without a label of more than 63 characters) is returned unchanged, whatever its
+labels look like: empty labels, `*`, digits, … -/
+theorem idna_ascii_idempotent (chk : Bool) (lowerStr : List Char → List Char)
+    (hA : LowerAscii lowerStr) (p : Profile) (domain : List Char) (h1 : allAscii domain = true)
+    (h2 : ∀ c ∈ domain, isAsciiUpper c = false)
+    (h3 : chk = true → ∀ name ∈ splitOn '.' domain, name.length ≤ 63) :
+    toIdnaStrG chk lowerStr p domain = .ok domain := by
+  unfold toIdnaStrG
+  rw [idnaLabels_self hA chk p (splitOn '.' domain) ?_ h3]
   · simp only [join_split]
   · intro n hn
     simp only [allAscii, List.all_eq_true] at h1 ⊢
     exact ⟨fun c hc => h1 c (mem_of_mem_splitOn '.' domain n c hn hc),
            fun c hc => h2 c (mem_of_mem_splitOn '.' domain n c hn hc)⟩
 
-/-- Applying `to_idna` twice is the same as applying it once. -/
-theorem idna_idempotent (lowerStr : List Char → List Char) (hA : LowerAscii lowerStr)
+/-- Applying `to_idna` twice is the same as applying it once — on the current tree provided no
+label of the RESULT is longer than 63 characters (the check of commit 300bbf4 looks at the
+original label only: 60 × `é` pass it and give an `xn--` label of more than 63 characters, which
+a second application rejects). -/
+theorem idna_idempotent (chk : Bool) (lowerStr : List Char → List Char) (hA : LowerAscii lowerStr)
     (hU : LowerNoUpper lowerStr) (p : Profile) (domain out : List Char)
-    (h : toIdnaStr lowerStr p domain = .ok out) : toIdnaStr lowerStr p out = .ok out := by
-  obtain ⟨_, _, _, _, h4, h5⟩ := idna_label_shape lowerStr hA p domain out h
-  exact idna_ascii_idempotent lowerStr hA p out (by simpa [allAscii] using h4) (h5 hU)
+    (h : toIdnaStrG chk lowerStr p domain = .ok out)
+    (h3 : chk = true → ∀ l ∈ splitOn '.' out, l.length ≤ 63) :
+    toIdnaStrG chk lowerStr p out = .ok out := by
+  obtain ⟨_, _, _, _, h4, h5, _⟩ := idna_label_shape chk lowerStr hA p domain out h
+  exact idna_ascii_idempotent chk lowerStr hA p out (by simpa [allAscii] using h4) (h5 hU) h3
 
 /-- **`idna_label_count`.** The result has as many labels as the input. -/
-theorem idna_label_count (lowerStr : List Char → List Char) (hA : LowerAscii lowerStr)
+theorem idna_label_count (chk : Bool) (lowerStr : List Char → List Char) (hA : LowerAscii lowerStr)
     (hD : LowerNoDot lowerStr) (p : Profile) (domain out : List Char)
-    (h : toIdnaStr lowerStr p domain = .ok out) :
+    (h : toIdnaStrG chk lowerStr p domain = .ok out) :
     (splitOn '.' out).length = (splitOn '.' domain).length := by
-  obtain ⟨ls, hls, rfl⟩ := toIdnaStr_ok lowerStr p domain out h
-  obtain ⟨hlen, hz⟩ := idnaLabels_spec lowerStr p _ ls hls
+  obtain ⟨ls, hls, rfl⟩ := toIdnaStr_ok chk lowerStr p domain out h
+  obtain ⟨hlen, hz⟩ := idnaLabels_spec chk lowerStr p _ ls hls
   rw [split_join '.' ls ?_ ?_, hlen]
   · intro e
     subst e
     exact splitOn_ne_nil '.' domain (List.eq_nil_of_length_eq_zero hlen.symm)
   · intro l hl
     obtain ⟨name, hn⟩ := exists_zip_of_mem_right _ ls hlen l hl
-    exact idnaLabel_noDot hA hD p name l
+    exact idnaLabel_noDot hA hD chk p name l
       (splitOn_no_sep '.' domain name (List.of_mem_zip hn).1) (hz _ hn)
 
 /-- **`order_ids_exact`.** For every list of configured identifiers that loads: the identifier
@@ -160,8 +199,14 @@ theorem csr_sans_perm_order (ids : List Identifier) :
 
 /-- The hypotheses on the lower-casing parameter are satisfiable together. -/
 example : LowerAscii (liftLower lowerAsciiOnly) ∧ LowerNoUpper (liftLower lowerAsciiOnly) ∧
-    LowerNoDot (liftLower lowerAsciiOnly) :=
-  ⟨liftLower_ascii lowerAsciiOnly_ascii, lowerAsciiOnly_noUpper, lowerAsciiOnly_noDot⟩
+    LowerNoDot (liftLower lowerAsciiOnly) ∧ LowerBounded (liftLower lowerAsciiOnly) :=
+  ⟨liftLower_ascii lowerAsciiOnly_ascii, lowerAsciiOnly_noUpper, lowerAsciiOnly_noDot,
+   lowerAsciiOnly_bounded⟩
+
+/-- A label of 64 characters is rejected, one of 63 passes (current tree). -/
+example : toIdnaWith lowerAsciiOnly .release (List.replicate 64 'a') = .err ∧
+    toIdnaWith lowerAsciiOnly .release (List.replicate 63 'a') = .ok (List.replicate 63 'a') := by
+  refine ⟨by decide +kernel, by decide +kernel⟩
 
 /-- RFC 3492 style sample: `bücher` ↦ `bcher-kva`. -/
 example : punycodeEncodeP .dev ['b', Char.ofNat 0xFC, 'c', 'h', 'e', 'r'] =
@@ -221,15 +266,16 @@ theorem labelsOk_of_zip (names ls : List (List Char)) (hlen : ls.length = names.
 
 open AcmedVerif.Spec.C01Ident in
 /-- The judge's shape definition accepts every result of `to_idna`. -/
-theorem judge_accepts_idna (lowerStr : List Char → List Char) (hA : LowerAscii lowerStr)
+theorem judge_accepts_idna (chk : Bool) (lowerStr : List Char → List Char)
+    (hA : LowerAscii lowerStr)
     (hU : LowerNoUpper lowerStr) (hD : LowerNoDot lowerStr) (p : Profile) (domain out : List Char)
-    (h : toIdnaStr lowerStr p domain = .ok out) : dnsShapeOk domain out = true := by
-  obtain ⟨ls, hls, rfl⟩ := toIdnaStr_ok lowerStr p domain out h
-  obtain ⟨hlen, hz⟩ := idnaLabels_spec lowerStr p _ ls hls
+    (h : toIdnaStrG chk lowerStr p domain = .ok out) : dnsShapeOk domain out = true := by
+  obtain ⟨ls, hls, rfl⟩ := toIdnaStr_ok chk lowerStr p domain out h
+  obtain ⟨hlen, hz⟩ := idnaLabels_spec chk lowerStr p _ ls hls
   have hnodot : ∀ l ∈ ls, '.' ∉ l := by
     intro l hl
     obtain ⟨name, hn⟩ := exists_zip_of_mem_right _ ls hlen l hl
-    exact idnaLabel_noDot hA hD p name l
+    exact idnaLabel_noDot hA hD chk p name l
       (splitOn_no_sep '.' domain name (List.of_mem_zip hn).1) (hz _ hn)
   have hne : ls ≠ [] := by
     intro e
@@ -239,8 +285,8 @@ theorem judge_accepts_idna (lowerStr : List Char → List Char) (hA : LowerAscii
   rw [split_join '.' ls hne hnodot]
   apply labelsOk_of_zip _ _ hlen
   intro x hx
-  have sh := idnaLabel_shape hA p x.1 x.2 (hz x hx)
-  have hup := idnaLabel_noUpper hA hU p x.1 x.2 (hz x hx)
+  have sh := idnaLabel_shape hA chk p x.1 x.2 (hz x hx)
+  have hup := idnaLabel_noUpper hA hU chk p x.1 x.2 (hz x hx)
   simp only [labelOk, Bool.and_eq_true]
   refine ⟨⟨sh.ascii, ?_⟩, ?_⟩
   · rw [List.all_eq_true]
@@ -295,7 +341,7 @@ theorem judge_accepts_model (P : Params) (hA : LowerAscii P.lowerStr)
       · rename_i o ho
         simp only [Except.ok.injEq] at h2
         subst h2
-        exact judge_accepts_idna P.lowerStr hA hU hD P.profile v _ ho
+        exact judge_accepts_idna true P.lowerStr hA hU hD P.profile v _ ho
       · exact absurd h2 (by simp)
       · exact absurd h2 (by simp)
     | ip =>
